@@ -167,3 +167,58 @@ func protoMessageName(goName string) string {
 	}
 	return goName
 }
+
+// repeatedScalarFields: message fields of the R4 protos that are repeated
+// scalars/enums (slice types other than []byte whose element is not a message
+// pointer).  protoreflect.List elements of such fields are not messages.
+func repeatedScalarFields(p *Program) ([]string, int, error) {
+	var out []string
+	nmsg := 0
+	var paths []string
+	for path := range p.ByPath {
+		if strings.HasPrefix(path, fhirProtoPrefix) {
+			paths = append(paths, path)
+		}
+	}
+	sort.Strings(paths)
+	for _, path := range paths {
+		tp := p.ByPath[path].Types
+		if tp == nil {
+			continue
+		}
+		for _, n := range tp.Scope().Names() {
+			tn, ok := tp.Scope().Lookup(n).(*types.TypeName)
+			if !ok {
+				continue
+			}
+			st, ok := tn.Type().Underlying().(*types.Struct)
+			if !ok || !isProtoMessagePtr(types.NewPointer(tn.Type())) {
+				continue
+			}
+			nmsg++
+			for i := 0; i < st.NumFields(); i++ {
+				f := st.Field(i)
+				if !f.Exported() {
+					continue
+				}
+				sl, ok := f.Type().(*types.Slice)
+				if !ok {
+					continue
+				}
+				if b, ok := sl.Elem().(*types.Basic); ok && b.Kind() == types.Byte {
+					continue
+				}
+				if pt, ok := sl.Elem().(*types.Pointer); ok {
+					if _, isStruct := pt.Elem().Underlying().(*types.Struct); isStruct {
+						continue
+					}
+				}
+				out = append(out, n+"."+f.Name())
+			}
+		}
+	}
+	if nmsg < 1000 {
+		return nil, nmsg, fmt.Errorf("schema: only %d message types scanned", nmsg)
+	}
+	return out, nmsg, nil
+}
